@@ -42,6 +42,8 @@ struct SqCase {
     oracle: Vec<(String, String, String)>,
     feats: Vec<String>,
     ok: bool,
+    /// SQPOLL ring
+    kt: bool,
 }
 
 impl SqCase {
@@ -70,6 +72,7 @@ impl SqCase {
             oracle: Vec::new(),
             feats: Vec::new(),
             ok,
+            kt: false,
         };
         if !ok {
             return c;
@@ -79,6 +82,13 @@ impl SqCase {
         let si = get("si").unwrap_or(0) == 1;
         let cfg = Ring::config().with_submission_queue_size(len as u32);
         let cfg = if si { cfg.single_issuer() } else { cfg };
+        // `kt=1`: SQPOLL — a kernel thread consumes the queue, `enter` submits nothing itself
+        let kt = !si && get("kt").unwrap_or(0) == 1;
+        let cfg = if kt { cfg.with_kernel_thread() } else { cfg };
+        c.kt = kt;
+        if kt {
+            c.feats.push("kernel-thread".into());
+        }
         let ring = cfg.build().expect("ring");
         if si {
             c.feats.push("single-issuer".into());
@@ -273,6 +283,9 @@ impl Case for SqCase {
         if rng.chance(if pending > 0 { 1 } else { 0 }, 6) || rng.chance(1, 40) {
             return Some("sq enter".into());
         }
+        if self.kt && pending == 0 && rng.chance(1, 3) {
+            return Some("sq idle".into());
+        }
         match rng.weighted(&[w_step, w_kernel, w_again, w_bad]) {
             0 => {
                 // bias towards keeping several threads inside the window between the
@@ -329,6 +342,19 @@ impl Case for SqCase {
                 }
                 vec![format!("t{i} {} {}", self.pc_name(&self.workers[i]), self.state_line())]
             }
+            ["sq", "idle"] => {
+                if !self.kt {
+                    return vec!["bad-op".into()];
+                }
+                let slept = simk::with_ring(self.rfd, |r, _| r.sqpoll_sleep());
+                if slept {
+                    self.feats.push("kernel-thread-sleeps".into());
+                }
+                vec![format!("{} {}", if slept { "sleep" } else { "busy" }, self.state_line())]
+            }
+            ["sq", "kernel"] if self.kt && simk::with_ring(self.rfd, |r, _| r.sqpoll_asleep) => {
+                vec![format!("asleep {}", self.state_line())]
+            }
             ["sq", "kernel"] => {
                 let l = self.kernel_step();
                 self.check_prefix();
@@ -339,6 +365,7 @@ impl Case for SqCase {
                 // `unsubmitted_submissions()` to io_uring_enter, the simulated kernel
                 // consumes exactly that many entries. All submitters are parked.
                 let n0 = simk::with_sim(|s| s.events.len());
+                let was_asleep = simk::with_ring(self.rfd, |r, _| r.sqpoll_asleep);
                 let r = util::catch(|| self.ring.as_mut().unwrap().poll(Some(std::time::Duration::ZERO)));
                 if r.is_err() {
                     self.oracle.push(("C04".into(), "C04/panic".into(), "Ring::poll panicked".into()));
@@ -385,13 +412,18 @@ impl Case for SqCase {
                 self.check_prefix();
                 // Oracle: everything published before the call has now reached the kernel.
                 let (h, tl) = simk::with_ring(self.rfd, |r, _| (r.sq_head(), r.sq_tail()));
-                if tl != h {
+                if self.kt && !was_asleep {
+                    // the kernel thread is running: it consumes on its own (`sq kernel` steps)
+                } else if tl != h {
                     self.oracle.push(("C04".into(), "C04/accepted-not-submitted".into(), format!("after Ring::poll entered the kernel with to_submit={} the queue still holds {} published entries (head {h}, tail {tl}): accepted submissions do not reach the kernel", to_submit.map(|n| n.to_string()).unwrap_or("?".into()), tl.wrapping_sub(h))));
                 }
                 if tl < h || (tl == h && h < 8) {
                     self.feats.push("enter-after-wrap".into());
                 }
                 let ts = to_submit.map(|n| n.to_string()).unwrap_or("none".into());
+                if self.kt && !names.is_empty() {
+                    self.feats.push("enter-wakes-kernel-thread".into());
+                }
                 vec![format!("enter {ts} consumed {} {}", if names.is_empty() { "-".to_string() } else { names.join(",") }, self.state_line())]
             }
             ["sq", "again", i, e] => {
@@ -426,6 +458,14 @@ impl Case for SqCase {
     fn finish(&mut self) -> CaseReport {
         if !self.ok {
             return CaseReport::default();
+        }
+        // SQPOLL with an idle kernel thread: a10 has to wake it (that is what `Ring::poll` does).
+        if self.kt && simk::with_ring(self.rfd, |r, _| r.sqpoll_asleep) && simk::with_ring(self.rfd, |r, _| r.sq_pending()) > 0 {
+            let _ = self.exec("sq enter");
+            if simk::with_ring(self.rfd, |r, _| r.sqpoll_asleep) {
+                self.oracle.push(("C04".into(), "C04/kernel-thread-not-woken".into(), "the SQPOLL kernel thread is idle (IORING_SQ_NEED_WAKEUP) with entries published and Ring::poll did not wake it: accepted submissions never reach the kernel".into()));
+                simk::with_ring(self.rfd, |r, _| { r.sqpoll_asleep = false; r.set_sq_flags(0); });
+            }
         }
         // Let every submitter finish, then let the kernel consume everything.
         for _ in 0..10_000 {
@@ -499,7 +539,8 @@ impl Comp for SqComp {
         };
         let n = rng.range(2, 4);
         let si = rng.chance(1, 4) as u8;
-        format!("sq begin {id} len={len} h0={h0} n={n} steps={} si={si}", rng.range(20, 80))
+        let kt = (si == 0 && rng.chance(1, 4)) as u8;
+        format!("sq begin {id} len={len} h0={h0} n={n} steps={} si={si} kt={kt}", rng.range(20, 80))
     }
     fn begin(&mut self, header: &str) -> Box<dyn Case> {
         Box::new(SqCase::new(header))
